@@ -654,11 +654,33 @@ def fam_ground (rng, fam = None, seg_hi = 1 / 21., seg_lo = 1 / 100., media = 'i
     return spec
 # end def fam_ground
 
+def rand_media (rng, spec):
+    """ put a ground family over real ground: 1..3 media, linear or circular boundary, possibly radials """
+    env = str (rng.choice (['real1', 'real2', 'real3', 'radials']))
+    if env == 'real1':
+        med = [[float (rng.uniform (2, 80)), float (10 ** rng.uniform (-4, 1)), 0.0]]
+    else:
+        med = [[float (rng.uniform (2, 30)), float (10 ** rng.uniform (-3, 0)), 0.0, float (10 ** rng.uniform (0, 2.5))]]
+        med.append ([float (rng.uniform (2, 80)), float (10 ** rng.uniform (-4, 0)), float (-rng.choice ([0, 0.5, 2]))])
+        if env == 'real3':
+            med [1].append (med [0][3] * float (rng.uniform (1.5, 10)))
+            med.append ([float (rng.uniform (2, 80)), float (10 ** rng.uniform (-4, 0)), float (-rng.choice ([0, 1, 5]))])
+        spec ['boundary'] = 'circular' if env == 'radials' else str (rng.choice (['linear', 'circular']))
+        if env == 'radials':
+            spec ['radials'] = [int (rng.integers (4, 120)), float (10 ** rng.uniform (-4, -2.5))]
+    spec ['media'] = med
+    return spec
+# end def rand_media
+
 def rand_voltage (rng):
     mag = float (np.exp (rng.uniform (np.log (0.2), np.log (20))))
     ph  = float (rng.uniform (-np.pi, np.pi))
-    if rng.random () < 0.25:
+    u = rng.random ()
+    if u < 0.25:
         return [1.0, 0.0]
+    if u < 0.37:
+        # magnitude exactly one, phase not zero
+        return [float (x) for x in ([0, 1], [-1, 0], [0, -1], [0.6, 0.8], [-0.8, 0.6]) [int (rng.integers (0, 5))]]
     return [mag * np.cos (ph), mag * np.sin (ph)]
 # end def rand_voltage
 
